@@ -31,14 +31,19 @@ def flagset(n):
 
 
 def make_tx(mode):
-    vin = [CTxIn(COutPoint(bytes([7 + k]) * 32, k), CScript(b'\x51'), 0xfffffffe) for k in range(2)]
+    # mode bit 0: mutable; (mode >> 1) % 3: input index 0 / 1 / out of range; mode >= 6: three inputs,
+    # the others still unsigned (empty scriptSig) with non-zero sequence numbers
+    if mode >= 6:
+        vin = [CTxIn(COutPoint(bytes([7 + k]) * 32, k), CScript(b''), 0xfffffffe - k) for k in range(3)]
+    else:
+        vin = [CTxIn(COutPoint(bytes([7 + k]) * 32, k), CScript(b'\x51'), 0xfffffffe) for k in range(2)]
     vout = [CTxOut(1000 * (k + 1), CScript(b'\x76\xa9')) for k in range(2)]
     t = CTransaction(vin, vout, 7, 2)
     return CMutableTransaction.from_tx(t) if mode & 1 else t
 
 
 def snapshot(tx, a, b):
-    return (tx.serialize(), [id(x) for x in tx.vin], [id(x) for x in tx.vout],
+    return (tx.serialize(), [id(x) for x in tx.vin], [id(x) for x in tx.vout], [(i.nSequence, i.prevout.n, bytes(i.prevout.hash)) for i in tx.vin],
             [bytes(i.scriptSig) for i in tx.vin], bytes(a), bytes(b), tx.__class__)
 
 
